@@ -28,14 +28,18 @@ func c19Classify(d string) string {
 // accepted. The twin says how many bytes a call needs; nothing is predicted from a model, so what the
 // emitter encodes, which width guards or duplicate labels it refuses and how it resolves labels (other
 // properties) cannot raise an alarm here -- only behaviour that depends on the room left can.
-func c19History(v asmVariant, capacity int, ops []asmOp, window bool) string {
+func c19History(v asmVariant, capacity int, ops []asmOp, window, viaClone bool) string {
 	const roomy = 224 // the longest history of the alphabet emits 5 x 33 bytes
 	dry := capacity < 0
 	var b *asm.Emitter
 	var g *asmGuard
-	if window && !dry {
+	switch {
+	case viaClone && !dry:
+		// the emitter under test is a Clone (of a fresh emitter) over the target: same capacity rules
+		b = newRealEmitter(v, 0).Clone(make([]byte, capacity))
+	case window && !dry:
 		b, g = newRealEmitterWindow(v, capacity)
-	} else {
+	default:
 		b = newRealEmitter(v, capacity)
 	}
 	t := newRealEmitter(v, roomy)
@@ -119,8 +123,8 @@ func c19Run(h asmHistory) (sig, what string) {
 	if err != nil {
 		return "bad-case", err.Error()
 	}
-	if d := c19History(h.Variant, h.Capacity, ops, h.Window); d != "" {
-		return c19Classify(d), fmt.Sprintf("%+v capacity %d window=%v %v: %s", h.Variant, h.Capacity, h.Window, h.Ops, d)
+	if d := c19History(h.Variant, h.Capacity, ops, h.Window, h.ViaClone); d != "" {
+		return c19Classify(d), fmt.Sprintf("%+v capacity %d window=%v via-clone=%v %v: %s", h.Variant, h.Capacity, h.Window, h.ViaClone, h.Ops, d)
 	}
 	return "", ""
 }
@@ -162,14 +166,15 @@ func runC19(r *report.Run) {
 		size := re.Len()
 		n := 0
 		for capacity := -1; capacity <= size+1; capacity++ {
-			// both shapes of target: a whole array (len == cap) and a window of a larger one (len < cap)
-			for _, window := range []bool{false, true} {
-				if window && capacity < 0 {
-					continue
+			// shapes: the target as a whole array (len == cap), as a window of a larger one (len < cap), and
+			// the emitter under test being a Clone over the target
+			for shape := 0; shape < 3; shape++ {
+				if shape > 0 && (capacity < 0 || (!thorough && v != variants[0])) {
+					continue // quick tier: the window and via-Clone shapes on the first variant only
 				}
 				n++
-				if d := c19History(v, capacity, ops, window); d != "" {
-					return c19Classify(d), fmt.Sprintf("%+v capacity %d window=%v %v: %s", v, capacity, window, historyNames(al, idx), d), n, &asmHistory{Variant: v, Ops: historyNames(al, idx), Capacity: capacity, Window: window}
+				if d := c19History(v, capacity, ops, shape == 1, shape == 2); d != "" {
+					return c19Classify(d), fmt.Sprintf("%+v capacity %d shape %d %v: %s", v, capacity, shape, historyNames(al, idx), d), n, &asmHistory{Variant: v, Ops: historyNames(al, idx), Capacity: capacity, Window: shape == 1, ViaClone: shape == 2}
 				}
 			}
 		}
@@ -190,7 +195,7 @@ func runC19(r *report.Run) {
 	r.Set("distinct_nontrivial", capCases-hist)
 	r.Set("histories", hist)
 	r.Set("history_x_capacity_cases", capCases)
-	r.Set("bounds", map[string]interface{}{"history_depth": depth, "alphabet": len(asmAlphabet()), "constructor_variants": len(variants), "thorough_second_pass": "all 10 constructor variants at depth 4", "capacities": "every capacity from 0 to program size + 1, each as a whole array (len == cap) and as a window of a larger canary-filled array (len < cap), plus the nil-target (dry-run) emitter"})
+	r.Set("bounds", map[string]interface{}{"history_depth": depth, "alphabet": len(asmAlphabet()), "constructor_variants": len(variants), "thorough_second_pass": "all 10 constructor variants at depth 4", "capacities": "every capacity from 0 to program size + 1, each as a whole array (len == cap), as a window of a larger canary-filled array (len < cap) and with the emitter under test being a Clone over the target, plus the nil-target (dry-run) emitter"})
 	r.Set("rule", "every call sequence up to the depth x every buffer capacity from 0 to the program's size + 1 and the nil-target emitter: each call runs on a fresh real Emitter and on a twin real Emitter with ample room that receives exactly the accepted calls (the twin tells how many bytes a call needs; nothing is predicted from a model), the target buffer given once as a whole array and once as a window of a larger array whose bytes outside the window must stay untouched; a call that does not fit must panic and leave Bytes/Len/PC/Flags/labels unchanged, the history continues after a refusal, a call that fits must leave the emitter exactly like the twin, Finalize after the history must agree with the twin's, and the nil-target emitter must report the same PC, labels and flags after every call; non-trivial = capacity below the program size or nil target (at least one call differs from the roomy run)")
 	r.Sample(asmHistory{Variant: variants[0], Ops: []string{"LDA_abs($1234)", "JSL($123456)", "NOP"}, Capacity: 5})
 	r.Sample(asmHistory{Variant: variants[1], Ops: []string{"SEP(#$20)", "LDA_imm8_b($7F)", "EmitBytes(17)"}, Capacity: -1})
